@@ -61,7 +61,11 @@ static inline bool qdom_isNull(qdom e) { return e == 0; }
 static inline qstr qdom_tagName(qdom e) { return e == 0 ? 0 : __CPROVER_uninterpreted_dom_tag(e); }
 static inline qstr qdom_namespaceURI(qdom e) { return e == 0 ? 0 : __CPROVER_uninterpreted_dom_ns(e); }
 static inline qstr qdom_attribute(qdom e, qstr name) { return e == 0 ? 0 : __CPROVER_uninterpreted_dom_attr(e, name); }
-static inline bool qdom_hasAttribute(qdom e, qstr name) { return e != 0 && __CPROVER_uninterpreted_dom_attr(e, name) != 0; }
+/* an attribute may be PRESENT with an empty value (version=''): hasAttribute is its own function of (element, name); the only
+   link to attribute() is that an absent attribute reads as the empty string */
+bool __CPROVER_uninterpreted_dom_has_attr(qdom e, qstr name);
+static inline bool qdom_hasAttribute(qdom e, qstr name) { if (e == 0) return false; bool h = __CPROVER_uninterpreted_dom_has_attr(e, name);
+  __CPROVER_assume(h || __CPROVER_uninterpreted_dom_attr(e, name) == 0); return h; }
 static inline qstr qdom_text(qdom e) { return e == 0 ? 0 : __CPROVER_uninterpreted_dom_text(e); }
 /* QXmpp's helper firstChildElement(el, tag = {}, ns = {}) (QXmppUtils.cpp) under its assumed contract */
 static inline qdom qdom_firstChildElement(qdom e, qstr tag, qstr ns) {
